@@ -64,8 +64,15 @@ Definition ecdf (obs : list Q) (x : Q) : Q :=
 Fixpoint rf (x : Q) (m : nat) : Q :=
   match m with
   | O => 1
-  | S m' => Qred (rf x m' * (x + natQ m'))
+  | S m' => rf x m' * (x + natQ m')
   end.
+(* [rf x 0; ...; rf x (m-1)] by one running product *)
+Fixpoint rf_from (x acc : Q) (k m : nat) : list Q :=
+  match m with
+  | O => []
+  | S m' => acc :: rf_from x (acc * (x + natQ k)) (S k) m'
+  end.
+Definition rf_table (x : Q) (n : nat) : list Q := rf_from x 1 0 (S n).
 Fixpoint zip_add (a b : list Z) : list Z :=
   match a, b with
   | x :: a', y :: b' => (x + y)%Z :: zip_add a' b'
@@ -79,8 +86,10 @@ Fixpoint pascal_row (n : nat) : list Z :=
 (* binom(n,k) * beta(k+a, n-k+b) / beta(a,b) = C(n,k) a^(k) b^(n-k) / (a+b)^(n) *)
 Definition bb_pdf (n : nat) (a b : Q) : list Q :=
   let row := pascal_row n in
+  let ta := rf_table a n in
+  let tb := rf_table b n in
   let den := rf (a + b) n in
-  map (fun k => Qred (inject_Z (nth k row 0%Z) * rf a k * rf b (n - k) / den)) (seq 0 (S n)).
+  map (fun k => Qred (inject_Z (nth k row 0%Z) * getQ ta k * getQ tb (n - k) / den)) (seq 0 (S n)).
 Definition bb_mean (n : nat) (a b : Q) : Q := natQ n * a / (a + b).
 Definition bb_var (n : nat) (a b : Q) : Q :=
   (natQ n * a * b * (a + b + natQ n)) / ((a + b) * (a + b) * (a + b + 1)).
